@@ -91,3 +91,39 @@ def fallible(F, name, _seen=()):
         if blk in live and rv["k"] == "agg" and rv.get("variant") == "Err" and "result::Result" in rv.get("adt", ""):
             return True
     return False
+
+
+def copy_mode_findings(F):
+    """Server.in_copy_mode is what keeps a connection with its client after ReadyForQuery (C01-R2) and what delays the release of the
+    pooled connection (C04): a COPY ends with CommandComplete or ErrorResponse, so every way through those two arms of Server::recv
+    leaves the flag false (assigns false, or took the `already false` edge of a test of it, or leaves with an error).
+    Yields (key, ok, where, witness)."""
+    rv = F.body("pgcat::server::Server::recv::{closure#0}")
+    if rv is None:
+        yield ("recv", None, "", None)
+        return
+    sws = switches(rv)
+    code_sw = [sw for sw in sws if sw.ty in ("char", "u8", "u32") and any(v == 90 for v, _ in sw.targets) and any(v == 69 for v, _ in sw.targets) and any(v == 67 for v, _ in sw.targets)]
+    if not code_sw:
+        yield ("code-switch", None, "", None)
+        return
+    arms = {v: t for v, t in code_sw[0].targets}
+    clears = [blk for blk, i, st in rv.assigns() if proj_fields(st["lhs"])[-1:] == ["in_copy_mode"] and st["rv"]["k"] == "use" and const_int(st["rv"].get("op")) == 0]
+    sets = [blk for blk, i, st in rv.assigns() if proj_fields(st["lhs"])[-1:] == ["in_copy_mode"] and st["rv"]["k"] == "use" and const_int(st["rv"].get("op")) == 1]
+    _, falseE = field_bool_edges(rv, "in_copy_mode", sws)
+    errs = [c.block for c in rv.calls("re:FromResidual<.*>::from_residual$")]
+    succ = rv.succ("n")
+    for code, nm in ((69, "ErrorResponse"), (67, "CommandComplete")):
+        if code not in arms:
+            yield ("arm:" + nm, None, "", None)
+            continue
+        region = {b for b in range(rv.nblocks) if rv.dominates(arms[code], b)}
+        exits = sorted({v for u in region for v in succ[u] if v not in region})
+        w = rv.uncrossed_path([arms[code]], exits, blocks=clears + errs, edges=set(falseE))
+        yield ("copy-ends:" + nm, w is None, "pgcat::server::Server::recv ('%s' arm, bb%d)" % (chr(code), arms[code]), w and rv.describe_path(w))
+    # who starts it
+    starters = sorted({chr(v) for v, t in arms.items() if any(rv.dominates(t, b) for b in sets)})
+    yield ("copy-starts:" + "".join(starters), set(starters) <= {"G", "H", "W"} and bool(starters), "", None)
+    others = sorted(n_ for n_, b_ in F.bodies.items() if not n_.startswith("bin:") and n_ != rv.name and not n_.endswith("Server::startup::{closure#0}")
+                    and any(proj_fields(st["lhs"])[-1:] == ["in_copy_mode"] for blk, i, st in b_.assigns()))
+    yield ("copy-flag-writers", not others, ",".join(others), None)
